@@ -398,7 +398,8 @@ def run_cycle(ctx, spec, first, kind, length, idx):
 def plan(tier, seed):
     n, parts = (200, 10) if tier == 'quick' else (3000, 30)
     shards = [{'kind': 'dag', 'n': n // parts, 'max': 8 if tier == 'quick' else 14} for _ in range(parts)]
-    shards.append({'kind': 'cyc'})
+    for rep in range(1 if tier == 'quick' else 12):
+        shards.append({'kind': 'cyc', 'rep': rep})
     return shards
 
 
